@@ -115,35 +115,39 @@ Y_B = np.array([-0.75, 0.3, 1.5])
 T_A, T_B = 0.0, 1.75
 
 
-def user_rhs(t, y, **kw):
-    # time dependent, non-symmetric Jacobian:  f = (1 + t) M y + sin(t) y^2
-    return (1 + t) * (M_T @ y) + np.sin(t) * y * y
+AMP = 2.0       # a constant of the system, passed by keyword on every request; the functions' own default (1.0) is wrong on purpose: a constant that does
+                # not arrive at the user's function changes every answer by a factor of two
 
 
-def analytic_jac(t, y):
-    return (1 + t) * M_T + np.diag(2 * np.sin(t) * y)
+def user_rhs(t, y, amp=1.0, **kw):
+    # time dependent, non-symmetric Jacobian:  f = amp ((1 + t) M y + sin(t) y^2)
+    return amp * ((1 + t) * (M_T @ y) + np.sin(t) * y * y)
 
 
-def J1(t, y, **kw):
-    return analytic_jac(t, y) + 100.0          # distinguishable from the truth and from J2
+def analytic_jac(t, y, amp=AMP):
+    return amp * ((1 + t) * M_T + np.diag(2 * np.sin(t) * y))
 
 
-def J2(t, y, **kw):
-    return analytic_jac(t, y) - 7.0
+def J1(t, y, amp=1.0, **kw):
+    return analytic_jac(t, y, amp) + 100.0          # distinguishable from the truth and from J2
+
+
+def J2(t, y, amp=1.0, **kw):
+    return analytic_jac(t, y, amp) - 7.0
 
 
 class WithAttr(object):
     """a right-hand side that carries its own jac attribute"""
 
     def __call__(self, t, y, **kw):
-        return user_rhs(t, y)
+        return user_rhs(t, y, **kw)
 
-    def jac(self, t, y, **kw):
-        return analytic_jac(t, y) + 55.0
+    def jac(self, t, y, amp=1.0, **kw):
+        return analytic_jac(t, y, amp) + 55.0
 
 
-def J3(t, y, **kw):
-    return analytic_jac(t, y) + 55.0
+def J3(t, y, amp=1.0, **kw):
+    return analytic_jac(t, y, amp) + 55.0
 
 
 OPS = [("jac", "A", "A"), ("jac", "B", "A"), ("jac", "A", "B"), ("jac", "B", "B"), ("hook", 1), ("hook", 2), ("unhook",), ("assign", 1), ("call",),
@@ -158,13 +162,13 @@ def build_rhs(cfg):
 
         def counted(t, y, **kw):
             cnt["n"] += 1
-            return base(t, y)
+            return base(t, y, **kw)
         counted.jac = base.jac
         rhs = de.DiffRHS(counted)
     else:
         def counted(t, y, **kw):
             cnt["n"] += 1
-            return user_rhs(t, y)
+            return user_rhs(t, y, **kw)
         rhs = de.DiffRHS(counted)
     return rhs, cnt
 
@@ -188,13 +192,13 @@ def step16(cfg, hist):
                 t = T_A if op[1] == "A" else T_B
                 y = Y_A if op[2] == "A" else Y_B
                 requests += 1
-                got = np.asarray(rhs.jac(t, y))
+                got = np.asarray(rhs.jac(t, y, amp=AMP))
                 if hooked is None and source is None:
                     source = "attr" if attr_present else "fd"
                 attached = hooked if hooked is not None else source
                 if last:
                     if attached in (1, 2):
-                        want = (J1 if attached == 1 else J2)(t, y)
+                        want = (J1 if attached == 1 else J2)(t, y, amp=AMP)
                         exact = True
                     elif attached == "attr":
                         want = analytic_jac(t, y) + 55.0; exact = True
@@ -221,9 +225,9 @@ def step16(cfg, hist):
                     del rhs.rhs.jac
                 attr_present = False
             elif op[0] == "call":
-                got = np.asarray(rhs(T_B, Y_B))
-                if last and not np.array_equal(got, user_rhs(T_B, Y_B)):
-                    r.v("C16/call", "calling the wrapper evaluates the user's right-hand side", case, observed=got.tolist(), expected=user_rhs(T_B, Y_B).tolist())
+                got = np.asarray(rhs(T_B, Y_B, amp=AMP))
+                if last and not np.array_equal(got, user_rhs(T_B, Y_B, amp=AMP)):
+                    r.v("C16/call", "calling the wrapper evaluates the user's right-hand side", case, observed=got.tolist(), expected=user_rhs(T_B, Y_B, amp=AMP).tolist())
         except Exception as e:
             r.v("C16/rhs-op-raises/%s" % op[0], "jac / hook / unhook sequences are served", dict(case, failing_op=i), observed=repr(e)[:200], expected="no exception")
             r.ret = None
